@@ -54,4 +54,6 @@ def main : IO Unit := do
     loop h out ({} : Geom.World) Geom.driverStep {}
   | some (.list [.atom "model", .atom "serial"]) =>
     loop h out () Serial.driverStep ()
+  | some (.list [.atom "model", .atom "repr"]) =>
+    loop h out ({} : Repr.World Unit) Repr.driverStep {}
   | _ => out.putStrLn "unknown-model"
